@@ -68,9 +68,14 @@ def pipeline_pager(R, prog, c, pk, P, lim, filt_p, map_p):
         from engine.analysis import resolve_terms as _rt4
         w = cc.assume_ok(lambda s_: fl(s_) or (s_[0] == "field" and fl(s_[1])), True).assume_bool(fcall, False).settle()
         rt_ = _rt4(prog, w.T.return_term(), 2, None, w.assumptions)
+        if rt_[0] == "call":
+            rt_ = w._assumed(rt_)  # (`filter.as_deref().is_none_or(|keep| keep(v))` & co.)
         good = rt_ == ("const", "bool", False) or (rt_[0] == "call" and fcall(rt_))
         w0 = cc.assume_ok(lambda s_: fl(s_) or (s_[0] == "field" and fl(s_[1])), False).settle()
-        good = good and _rt4(prog, w0.T.return_term(), 2, None, w0.assumptions) == ("const", "bool", True)
+        rt0_ = _rt4(prog, w0.T.return_term(), 2, None, w0.assumptions)
+        if rt0_[0] == "call":
+            rt0_ = w0._assumed(rt0_)
+        good = good and rt0_ == ("const", "bool", True)
     R.ob("C17.R1", "filtered-items-skipped", good, "the filter argument is not applied before take (or does not drop exactly the rejected items): steps %s" % methods, fn=pk)
     R.worlds += 2
 
@@ -288,6 +293,17 @@ def run(R, env):
                     okl = load is not None and load[0] == "call" and load[1] == "cw_storage_plus::Map::load" and ns_of(prog, load[2][0]) == "batches" and load[2][2] == ("id",)
                     R.ob("C17.R2", "BatchesByIds:loads-each-id", okl, "per-id load = %s" % fmt(load or res or ("none",))[:100], loc=c.body.loc(bi), fn=c.body.key)
                     R.ob("C17.R2", "BatchesByIds:keeps-exactly-the-Ok-loads", okl, "the filter does not map Ok(b) -> Some(b), Err -> None", loc=c.body.loc(bi), fn=c.body.key)
+    if not found_ids:
+        # spelling D: ids.flat_map(|id| BATCHES.load(storage, id))  — a Result iterates over its Ok value, an Err yields nothing
+        for c, path in inline_walk(prog, qc, 3):
+            for bi, t, a in call_sites(c, lambda nm: nm.endswith(("Iterator::flat_map", "Iterator::flatten"))):
+                src_, clo_ = (a[0], a[1]) if len(a) == 2 else (a[0][2][0], a[0][2][1]) if (a[0][0] == "call" and a[0][1].endswith("Iterator::map") and len(a[0][2]) == 2) else (None, None)
+                if src_ is not None and msg_field(src_, "BatchesByIds", "ids") and clo_[0] == "closure":
+                    found_ids = True
+                    load = closure_result(prog, clo_, params={2: ("id",)})
+                    okl = load is not None and load[0] == "call" and load[1] == "cw_storage_plus::Map::load" and ns_of(prog, load[2][0]) == "batches" and load[2][2] == ("id",)
+                    R.ob("C17.R2", "BatchesByIds:loads-each-id", okl, "per-id load = %s" % fmt(load or ("none",))[:100], loc=c.body.loc(bi), fn=c.body.key)
+                    R.ob("C17.R2", "BatchesByIds:keeps-exactly-the-Ok-loads", okl, "the flattened value is not the Result of the load", loc=c.body.loc(bi), fn=c.body.key)
     if not found_ids:
         # spelling C: `for id in ids { if let Ok(b) = BATCHES.load(storage, id) { found.push(b) } }`
         ids_p = lambda x: msg_field(x, "BatchesByIds", "ids")
